@@ -55,12 +55,19 @@ def check(case):
         return []      # a conjunction has at least one triple (C07's grammar rejects the empty text)
     want = [(s, _colon(r), t) for s, r, t in ts]
     f = []
+    codec = penman.PENMANCodec()
     for indent in (True, False):
         s = penman.format_triples(ts, indent=indent)
+        if codec.format_triples(ts, indent=indent) != s:
+            f.append(('codec-object-differs', short(s, 200)))
+            return f
         try:
             got = penman.parse_triples(s)
         except DecodeError as e:
             f.append(('formatted-triples-rejected', '%s: %s at %r' % (short(s, 200), e.message, (e.lineno, e.offset))))
+            return f
+        if got == want and codec.parse_triples(s) != got:
+            f.append(('codec-object-differs', short(s, 200)))
             return f
         if got != want:
             f.append(('triples-roundtrip', '%s -> %s, expected %s' % (short(s, 200), short(got, 200), short(want, 200))))
